@@ -115,3 +115,9 @@ class VS1(pg.Object):
 
 
 VOCAB = [VA, VB, VC, VP, VS1, VS2]
+
+
+@pg.functor([('x', pg.typing.Any()), ('y', pg.typing.Any(default=1))])
+def vocab_functor(x, y=1):
+  """A module-level functor: `vocab_functor(1)` is a pg.Object with fields x, y."""
+  return x
